@@ -4,7 +4,7 @@ from __future__ import annotations
 import ast
 
 from ..engine import AnalysisError, MechanismMissing, PropertySpec, norm
-from ..pyutil import call_name, calls, is_name, literal, walk_local
+from ..pyutil import call_name, calls, inlined, is_name, literal, walk_local
 from ._simplify import MODEL, substitutions
 
 SPEC = PropertySpec(
@@ -195,7 +195,7 @@ def scalar_attributes_verbatim(ctx, rep, R):
                     n += 1
                     v = x.value
                     ok = (isinstance(v, ast.Name) and v.id in (srcs | dsts)) or (
-                        isinstance(v, ast.Call) and norm(v.func).endswith(".python_type") and len(v.args) == 1 and isinstance(v.args[0], ast.Name) and v.args[0].id in dsts)
+                        isinstance(v, ast.Call) and norm(inlined(v.func, [lp])).endswith(".python_type") and len(v.args) == 1 and isinstance(v.args[0], ast.Name) and v.args[0].id in dsts)
                     rep.ob(R, SITE, "`%s` hands the value on unchanged" % norm(x)[:60], ok,
                            "the attribute value given to the scalar elements is `%s`, not the value itself: a start value that stands for `no start "
                            "declared` is an instance of a marker class, and a conversion returns a plain number — every element then looks as if it "
